@@ -115,10 +115,14 @@ Fixpoint word_at (ws : list (Z * Z)) (i : Z) : Z :=
   match ws with [] => 0 | (o, v) :: r => if o =? i then v else word_at r i end.
 
 (* ---- claim ---- *)
-(* capacity - (tail - head) as Index *)
+(* capacity as i64 - (tail - head)   (fixes/C06-claim-capacity-i64.diff: the difference of the two 64-bit
+   positions is no longer narrowed to Index before the comparison) *)
 Definition avail (m : mode) (cp tl hd : Z) : outcome Z :=
+  d <- sub64 m tl hd ;; sub64 m cp d.
+(* the code before that repair: capacity - (tail - head) as Index *)
+Definition avail_before_fix (m : mode) (cp tl hd : Z) : outcome Z :=
   d <- sub64 m tl hd ;; sub32 m cp (wrap32 d).
-(* required_capacity > available_capacity, with the head value the caller holds *)
+(* required_capacity as i64 > available_capacity, with the head value the caller holds *)
 Definition lacks (m : mode) (cp required tl hd : Z) : outcome bool :=
   a <- avail m cp tl hd ;; Ok (required >? a).
 (* Some len_to_buffer_end when required_capacity > len_to_buffer_end *)
